@@ -165,6 +165,20 @@ func (crashEngine) run(ctx *simrt.Ctx) *simrt.Violation {
 				for x := hashToBlock[string(st.tip)]; x != nil; x = x.Up {
 					allowed[string(x.Hash)] = true
 				}
+				// One delivery can connect a whole cascade of waiting orphans and
+				// reorganise among them, so every already delivered descendant of the
+				// delivered block may have been the tip for a moment.
+				for _, sj := range steps[:si+1] {
+					d := w.Blocks[sj.id]
+					for x := d; x != nil; x = x.Up {
+						if x.ID == st.id {
+							for y := d; y != nil; y = y.Up {
+								allowed[string(y.Hash)] = true
+							}
+							break
+						}
+					}
+				}
 			}
 		}
 		disk := sut.Disk.CloneAt(k, fmt.Sprintf("crash-%s-%d", uid, k))
